@@ -356,6 +356,64 @@ theorem doy_fields (t : Nat) :
     unfold doyOf doy0OfDay yearOf; omega
   rw [this]; exact ⟨rfl, rfl⟩
 
+/-! ### 7-tuples and times are in bijection -/
+
+/-- every time up to `datetime.max` is the value of the 7-tuple of its own fields -/
+theorem ofFields_fields {t : Nat} (h : t ≤ maxT) :
+    ofFields (yearOf t) (monthOf t) (domOf t) (hourOf t) (minuteOf t) (secondOf t) (microOf t) = some t := by
+  unfold ofFields
+  rw [mkDate_fields_hour h]
+  simp only []
+  have h1 : minuteOf t < 60 := by unfold minuteOf usPerHour; omega
+  have h2 : secondOf t < 60 := by unfold secondOf; omega
+  have h3 : microOf t < 1000000 := by unfold microOf; omega
+  rw [if_pos ⟨h1, h2, h3⟩]
+  congr 1
+  show t - t % usPerHour + minuteOf t * 60000000 + secondOf t * 1000000 + microOf t = t
+  unfold minuteOf secondOf microOf usPerHour; omega
+
+/-- a valid 7-tuple is recovered from its value: `ofFields` is injective -/
+theorem fields_ofFields {y mo d h mi s us t : Nat} (hv : ofFields y mo d h mi s us = some t) :
+    yearOf t = y ∧ monthOf t = mo ∧ domOf t = d ∧ hourOf t = h ∧ minuteOf t = mi ∧ secondOf t = s ∧
+    microOf t = us ∧ t ≤ maxT := by
+  unfold ofFields mkDate at hv
+  simp only [] at hv
+  by_cases hc : 1 ≤ y ∧ y ≤ 9999 ∧ 1 ≤ mo ∧ mo ≤ 12 ∧ 1 ≤ d ∧ d ≤ monthLen (isLeap y) mo ∧ h < 24
+  · rw [if_pos hc] at hv
+    simp only [] at hv
+    by_cases hc2 : mi < 60 ∧ s < 60 ∧ us < 1000000
+    · rw [if_pos hc2] at hv
+      simp only [Option.some.injEq] at hv
+      obtain ⟨y1, y2, m1, m2, d1, d2, hh⟩ := hc
+      obtain ⟨c1, c2, c3⟩ := hc2
+      have hsucc := dbm_succ (isLeap y) mo m1 m2
+      have h13 := dbm_mono (isLeap y) (a := mo + 1) (b := 13) (by omega) (by omega) (le_refl _)
+      rw [dbm_13] at h13
+      have hx : dbm (isLeap y) mo + (d - 1) < yearLen y := by omega
+      have hday : dayNum t = dby y + (dbm (isLeap y) mo + (d - 1)) := by
+        rw [← hv]; unfold dayNum usPerDay usPerHour; omega
+      have ey : yearOfDay (dayNum t) = y := by rw [hday]; exact yearOfDay_add y1 hx
+      have edoy : doy0OfDay (dayNum t) = dbm (isLeap y) mo + (d - 1) := by
+        unfold doy0OfDay; rw [ey, hday]; omega
+      have em : monthOfDay (dayNum t) = mo := by
+        apply monthOfDay_eq m1 m2 <;> rw [ey, edoy] <;> omega
+      have ed : domOfDay (dayNum t) = d := by
+        unfold domOfDay; rw [ey, em, edoy]; omega
+      have ey' : dby y < dby 10000 := dby_strict y1 (by omega)
+      have e10 : dby 10000 = 3652059 := by decide
+      have hle := dby_mono (y := y + 1) (z := 10000) (by omega) (by omega)
+      rw [dby_succ y y1] at hle
+      refine ⟨ey, em, ed, ?_, ?_, ?_, ?_, ?_⟩
+      · rw [← hv]; unfold hourOf usPerDay usPerHour; omega
+      · rw [← hv]; unfold minuteOf usPerDay usPerHour; omega
+      · rw [← hv]; unfold secondOf usPerDay usPerHour; omega
+      · rw [← hv]; unfold microOf usPerDay usPerHour; omega
+      · have : dayNum t < dby 10000 := by rw [hday]; omega
+        rw [e10] at this
+        unfold maxT; rw [e10]; unfold dayNum usPerDay at *; omega
+    · rw [if_neg hc2] at hv; cases hv
+  · rw [if_neg hc] at hv; cases hv
+
 /-- every month is at most `Res.month.micros`, every year at most `Res.year.micros` long -/
 theorem period_le_res :
     (∀ l m, monthLen l m * usPerDay ≤ Res.month.micros) ∧ (∀ y, yearLen y * usPerDay ≤ Res.year.micros) := by
